@@ -74,6 +74,14 @@ def bp_schedules():
             for e in ends:
                 out.append(dict(id="bp-%s-%s%s-%s" % (d, e[0], e[1], mode), mode=mode, src="coop",
                                 cmds=[hold] + [C(send)] * 4 + [C("W", "1300"), C(*e), C("W", "300"), rel]))
+            # the two directions are independent: while one peer does not take, what the OTHER direction carries still arrives
+            other, bar = ("I", "BA") if d == "T" else ("S", "BM")
+            out.append(dict(id="bp-%s-cross-%s" % (d, mode), mode=mode, src="coop",
+                            cmds=[hold, C(send), C("W", "200"), C(other), C(bar), C(other), C(bar), rel, C("B"), C(*other_end)]))
+    for mode in ("default", "lcm"):
+        # a reconnect before the old stream is torn down: a second stream with the same metadata while the first is up
+        out.append(dict(id="bp-X-twin-%s" % mode, mode=mode, src="coop",
+                        cmds=[C("S"), C("I"), C("B"), C("TW"), C("S"), C("I"), C("B"), C("SE", "eof")]))
     for i, x in enumerate(out):
         x.update(fault={"k": "none", "p": 0}, sync=False, payload=("inc", "flat")[i % 2], code=CODES[i % len(CODES)])
     return out
@@ -242,7 +250,8 @@ def run(c, a):
                     "modified": "payload changed in transit", "unknown": "a message of unknown kind was forwarded",
                     "incomplete": "a message that raced no end was not delivered within the deadline",
                     "handler": "the handler did not return after an end", "inihalfopen": "the initiator never saw the stream end",
-                    "srchalfopen": "the source never saw the stream end", "stuck": "forwarder goroutines left behind"}.get(clause, clause)
+                    "srchalfopen": "the source never saw the stream end", "stuck": "forwarder goroutines left behind",
+                    "twin": "a second stream with the same metadata was not relayed independently"}.get(clause, clause)
             c.violation({"module": "Forwarder", "clause": clause, "cause": cause, "mode": sc.get("mode", "?")},
                         "%s: %s (%s %s) in script %s [first end: %s, sync=%s, mode=%s]: %s" % (
                             clause, what, detail, num, sc.get("id"), cause, sc.get("sync"), sc.get("mode"), json.dumps(e)[:240]),
